@@ -410,7 +410,7 @@ func generate() (list []*scenario, lattice map[string]int) {
 		}
 	}
 	// (2) mixed kinds, seeded
-	n := h.Pick(400, 30000)
+	n := h.Pick(400, 20000)
 	r := h.Rng(10, 2)
 	for i := 0; i < n; i++ {
 		pos := r.Intn(3)
